@@ -38,13 +38,6 @@ DupOk(x, y) == Dup \/ x # y
 
 -----------------------------------------------------------------------------
 \* strings
-Get(k)              == db' = db
-StrLen(k)           == db' = db
-Exists(k)           == db' = db
-Exists2(k, k2)      == db' = db
-MGet(k, k2)         == db' = db
-GetRange(k, s, e)   == db' = db
-Ttl(k)              == db' = db
 Set(k, v, t)        == Ok("set", k, <<v>>, t) /\ db' = Nx("set", k, <<v>>, t).db
 SetX(k, v, d, m, t) == Ok("setx", k, <<v, d, m>>, t) /\ db' = Nx("setx", k, <<v, d, m>>, t).db
 SetEx(k, d, v, t)   == Ok("setex", k, <<d, v>>, t) /\ db' = Nx("setex", k, <<d, v>>, t).db
@@ -62,9 +55,6 @@ Persist(k, t)       == Ok("persist", k, <<>>, t) /\ db' = Nx("persist", k, <<>>,
 
 RIdx == {-1, 0, 1}
 NextKV ==
-  \/ \E k \in Keys : Get(k) \/ StrLen(k) \/ Exists(k) \/ Ttl(k)
-  \/ \E k, k2 \in Keys : Exists2(k, k2) \/ MGet(k, k2)
-  \/ \E k \in Keys, s, e \in RIdx \cup {-3, 2} : GetRange(k, s, e)
   \/ \E k \in Keys, t \in Times :
        \/ Incr(k, t) \/ Del(k, t) \/ Persist(k, t)
        \/ \E v \in VIds : Set(k, v, t) \/ SetNx(k, v, t) \/ GetSet(k, v, t) \/ AppendV(k, v, t)
@@ -79,15 +69,6 @@ SpecKV == Init /\ [][NextKV]_vars
 
 -----------------------------------------------------------------------------
 \* hashes
-HGet(k, f)          == db' = db
-HMGet(k, f, g)      == db' = db
-HExists(k, f)       == db' = db
-HLen(k)             == db' = db
-HGetAll(k)          == db' = db
-HKeys(k)            == db' = db
-HVals(k)            == db' = db
-HKeyExist(k)        == db' = db
-HTtl(k)             == db' = db
 HSet(k, f, v, t)    == Ok("hset", k, <<f, v>>, t) /\ db' = Nx("hset", k, <<f, v>>, t).db
 HSetNx(k, f, v, t)  == Ok("hsetnx", k, <<f, v>>, t) /\ db' = Nx("hsetnx", k, <<f, v>>, t).db
 HMSet(k, f, v, g, w, t) == Ok("hmset", k, <<f, v, g, w>>, t) /\ db' = Nx("hmset", k, <<f, v, g, w>>, t).db
@@ -99,9 +80,6 @@ HExpire(k, d, t)    == Ok("hexpire", k, <<d>>, t) /\ db' = Nx("hexpire", k, <<d>
 HPersist(k, t)      == Ok("hpersist", k, <<>>, t) /\ db' = Nx("hpersist", k, <<>>, t).db
 
 NextH ==
-  \/ \E k \in Keys : HLen(k) \/ HGetAll(k) \/ HKeys(k) \/ HVals(k) \/ HKeyExist(k) \/ HTtl(k)
-  \/ \E k \in Keys, f \in Subs : HGet(k, f) \/ HExists(k, f)
-  \/ \E k \in Keys, f, g \in Subs : HMGet(k, f, g)
   \/ \E k \in Keys, t \in Times :
        \/ HClear(k, t) \/ HPersist(k, t)
        \/ \E f \in Subs, v \in VIds : HSet(k, f, v, t) \/ HSetNx(k, f, v, t)
@@ -113,11 +91,6 @@ SpecH == Init /\ [][NextH]_vars
 
 -----------------------------------------------------------------------------
 \* lists
-LLen(k)             == db' = db
-LIndex(k, i)        == db' = db
-LRange(k, s, e)     == db' = db
-LKeyExist(k)        == db' = db
-LTtl(k)             == db' = db
 LPush(k, v, t)      == Ok("lpush", k, <<v>>, t) /\ db' = Nx("lpush", k, <<v>>, t).db
 LPush2(k, v, w, t)  == Ok("lpush2", k, <<v, w>>, t) /\ db' = Nx("lpush2", k, <<v, w>>, t).db
 RPush(k, v, t)      == Ok("rpush", k, <<v>>, t) /\ db' = Nx("rpush", k, <<v>>, t).db
@@ -132,9 +105,6 @@ LPersist(k, t)      == Ok("lpersist", k, <<>>, t) /\ db' = Nx("lpersist", k, <<>
 
 LIdx == {-4, -2, -1, 0, 1, 3}
 NextL ==
-  \/ \E k \in Keys : LLen(k) \/ LKeyExist(k) \/ LTtl(k)
-  \/ \E k \in Keys, i \in LIdx : LIndex(k, i)
-  \/ \E k \in Keys, s, e \in LIdx : LRange(k, s, e)
   \/ \E k \in Keys, t \in Times :
        \/ LPop(k, t) \/ RPop(k, t) \/ LClear(k, t) \/ LPersist(k, t)
        \/ \E v \in VIds : LPush(k, v, t) \/ RPush(k, v, t)
@@ -146,12 +116,6 @@ SpecL == Init /\ [][NextL]_vars
 
 -----------------------------------------------------------------------------
 \* sets
-SCard(k)            == db' = db
-SIsMember(k, m)     == db' = db
-SMembers(k)         == db' = db
-SRandMember(k, n)   == db' = db
-SKeyExist(k)        == db' = db
-STtl(k)             == db' = db
 SAdd(k, m, t)       == Ok("sadd", k, <<m>>, t) /\ db' = Nx("sadd", k, <<m>>, t).db
 SAdd2(k, m, n, t)   == Ok("sadd2", k, <<m, n>>, t) /\ db' = Nx("sadd2", k, <<m, n>>, t).db
 SRem(k, m, t)       == Ok("srem", k, <<m>>, t) /\ db' = Nx("srem", k, <<m>>, t).db
@@ -163,9 +127,6 @@ SExpire(k, d, t)    == Ok("sexpire", k, <<d>>, t) /\ db' = Nx("sexpire", k, <<d>
 SPersist(k, t)      == Ok("spersist", k, <<>>, t) /\ db' = Nx("spersist", k, <<>>, t).db
 
 NextS ==
-  \/ \E k \in Keys : SCard(k) \/ SMembers(k) \/ SKeyExist(k) \/ STtl(k)
-  \/ \E k \in Keys, m \in Subs : SIsMember(k, m)
-  \/ \E k \in Keys, n \in {1, 2, 5} : SRandMember(k, n)
   \/ \E k \in Keys, t \in Times :
        \/ SPop(k, t) \/ SClear(k, t) \/ SPersist(k, t)
        \/ \E m \in Subs : SAdd(k, m, t) \/ SRem(k, m, t)
@@ -176,19 +137,6 @@ SpecS == Init /\ [][NextS]_vars
 
 -----------------------------------------------------------------------------
 \* sorted sets (scores in half units)
-ZCard(k)            == db' = db
-ZScore(k, m)        == db' = db
-ZRank(k, m)         == db' = db
-ZRevRank(k, m)      == db' = db
-ZRange(k, s, e)     == db' = db
-ZRevRange(k, s, e)  == db' = db
-ZRangeByScore(k, lo, lk, hi, hk)    == db' = db
-ZRevRangeByScore(k, lo, lk, hi, hk) == db' = db
-ZCount(k, lo, lk, hi, hk)           == db' = db
-ZRangeByLex(k, lo, lk, hi, hk)      == db' = db
-ZLexCount(k, lo, lk, hi, hk)        == db' = db
-ZKeyExist(k)        == db' = db
-ZTtl(k)             == db' = db
 ZAdd(k, s, m, t)    == Ok("zadd", k, <<s, m>>, t) /\ db' = Nx("zadd", k, <<s, m>>, t).db
 ZAdd2(k, s, m, s2, m2, t) == Ok("zadd2", k, <<s, m, s2, m2>>, t) /\ db' = Nx("zadd2", k, <<s, m, s2, m2>>, t).db
 ZIncrBy(k, d, m, t) == Ok("zincrby", k, <<d, m>>, t) /\ db' = Nx("zincrby", k, <<d, m>>, t).db
@@ -207,13 +155,6 @@ ZIdx == {-3, -1, 0, 1}
 ZIv == {<<0, 2, 0, 2>>, <<2, 0, 3, 0>>, <<2, 1, 3, 0>>, <<2, 0, 3, 1>>, <<3, 0, 2, 0>>, <<2, 1, 0, 2>>}
 LexIv == {<<0, 2, 0, 2>>, <<1, 0, 2, 0>>, <<1, 1, 2, 0>>, <<1, 0, 2, 1>>, <<2, 0, 1, 0>>, <<1, 1, 0, 2>>}
 NextZ ==
-  \/ \E k \in Keys : ZCard(k) \/ ZKeyExist(k) \/ ZTtl(k)
-  \/ \E k \in Keys, m \in Subs : ZScore(k, m) \/ ZRank(k, m) \/ ZRevRank(k, m)
-  \/ \E k \in Keys, s, e \in ZIdx : ZRange(k, s, e) \/ ZRevRange(k, s, e)
-  \/ \E k \in Keys, iv \in ZIv : \/ ZRangeByScore(k, iv[1], iv[2], iv[3], iv[4])
-                                 \/ ZRevRangeByScore(k, iv[1], iv[2], iv[3], iv[4])
-                                 \/ ZCount(k, iv[1], iv[2], iv[3], iv[4])
-  \/ \E k \in Keys, iv \in LexIv : ZRangeByLex(k, iv[1], iv[2], iv[3], iv[4]) \/ ZLexCount(k, iv[1], iv[2], iv[3], iv[4])
   \/ \E k \in Keys, t \in Times :
        \/ ZClear(k, t) \/ ZPersist(k, t)
        \/ \E s \in ZScores, m \in Subs : ZAdd(k, s, m, t)
